@@ -667,7 +667,7 @@ theorem optimizeUnion_nf_step {cfg : GenCfg} {e : EqEnv} {f : Nat}
     {ms : List Ty} {t' : Ty} (hr : rawD cfg (.union ms) = true)
     (h : optimizeUnion cfg e (f + 1) ms = .ok t') : nf t' = true := by
   obtain ⟨sh, hm⟩ := rawD_union hr
-  rw [optimizeUnion_body, split_optFree cfg.reg ms {} (fun t ht => ⟨rawD_not_opt (hm t ht), fun k hk => by
+  rw [optimizeUnion_body _ _ _ _ (raw_hidden sh hm), split_optFree cfg.reg ms {} (fun t ht => ⟨rawD_not_opt (hm t ht), fun k hk => by
     have := hm t ht; rw [hk] at this; simpa [rawD] using this⟩)] at h
   unfold unionBody at h
   simp only [List.nil_append, bind, Except.bind] at h
